@@ -107,6 +107,9 @@ def run_patch(patch, pid):
         env = dict(os.environ, VERIF_REPO=repo, VERIF_OUT=os.path.join(d, "out"), VERIF_TIER="quick")
         r = subprocess.run([os.path.join(VERIF, "check"), pid, "--tier", "quick"], env=env, cwd=VERIF, stdout=subprocess.PIPE, stderr=subprocess.STDOUT, text=True)
         if "FATAL: facts generation failed" in r.stdout:
+            # under heavy parallel load a cargo invocation can fail spuriously: try once more before calling it uncompilable
+            r = subprocess.run([os.path.join(VERIF, "check"), pid, "--tier", "quick"], env=env, cwd=VERIF, stdout=subprocess.PIPE, stderr=subprocess.STDOUT, text=True)
+        if "FATAL: facts generation failed" in r.stdout:
             return "skipped", "does not compile"
         rules = sorted({l.strip().split(" ")[1] for l in r.stdout.splitlines() if l.strip().startswith("rule ")})
         return ("alarm" if r.returncode == 1 else "silent"), ",".join(rules)
